@@ -58,7 +58,19 @@ Lemma claim_inv asset genesis cs proof bv fee_of t :
     t = claim_tx input asset cs amount fee_of.
 Proof.
   unfold claim. destruct (create_pegin_input asset genesis cs proof bv) as [[input amount]| |]; try discriminate.
+  destruct ((0x8000000000000000 <=? amount) || (amount <? claim_fee input asset cs amount fee_of)); [discriminate|].
   intro E. injection E as <-. exists input, amount. split; reflexivity.
+Qed.
+
+(* the guard added by fix 858a1b0 *)
+Lemma claim_guard asset genesis cs proof bv fee_of t input amount :
+  claim asset genesis cs proof bv fee_of = PgOk t ->
+  create_pegin_input asset genesis cs proof bv = PgOk (input, amount) ->
+  amount < 0x8000000000000000 /\ fee_of (vsize (claim_dummy input asset cs amount)) <= amount.
+Proof.
+  unfold claim. intros C P. rewrite P in C. unfold claim_fee in C. fold (claim_dummy input asset cs amount) in C.
+  destruct (N.leb_spec 0x8000000000000000 amount); [discriminate|].
+  destruct (N.ltb_spec amount (fee_of (vsize (claim_dummy input asset cs amount)))); [discriminate|]. split; lia.
 Qed.
 
 (* the output found pays the main-chain script; its index and value are returned *)
@@ -122,14 +134,15 @@ Proof.
   apply orb_true_r.
 Qed.
 
+(* every accepted claim's outputs sum to the pegged amount (full statement, after fix 858a1b0) *)
 Theorem claim_outputs_sum asset genesis cs proof bv fee_of t :
   claim asset genesis cs proof bv fee_of = PgOk t ->
   exists input amount,
-    create_pegin_input asset genesis cs proof bv = PgOk (input, amount) /\
-    (amount < two64 -> fee_of (vsize (claim_dummy input asset cs amount)) <= amount -> outs_sum t = amount).
+    create_pegin_input asset genesis cs proof bv = PgOk (input, amount) /\ outs_sum t = amount.
 Proof.
-  intro C. apply claim_inv in C as [input [amount [P ->]]]. exists input, amount.
-  split; [exact P|]. apply claim_tx_outputs_sum.
+  intro C. pose proof C as C0. apply claim_inv in C as [input [amount [P ->]]]. exists input, amount.
+  split; [exact P|]. destruct (claim_guard _ _ _ _ _ _ _ _ _ C0 P) as [Ha Hf].
+  apply claim_tx_outputs_sum; [unfold two64; lia | exact Hf].
 Qed.
 
 (* ---------- a concrete claim; and the refutation of the sum for fee > amount ---------- *)
@@ -146,16 +159,7 @@ Example claim_example :
             outs_sum t = 1000 /\ (exists i, t_ins t = [i] /\ in_index i = 1 /\ in_hash i = ex_txid).
 Proof. eexists. split; [vm_compute; reflexivity|]. split; [vm_compute; reflexivity|]. eexists. split; vm_compute; auto. Qed.
 
-(* FULL STATEMENT (does not hold): every accepted claim has outs_sum t = amount.
-   pegin.Claim subtracts modulo 2^64: with fee > amount the claim is still returned *)
-Theorem claim_outputs_sum_refuted :
-  exists asset genesis cs proof bv fee_of t input amount,
-    claim asset genesis cs proof bv fee_of = PgOk t /\
-    create_pegin_input asset genesis cs proof bv = PgOk (input, amount) /\
-    amount < fee_of (vsize (claim_dummy input asset cs amount)) /\
-    outs_sum t <> amount.
-Proof.
-  exists ex_asset, (repeat x06 32), [x00; x14], ex_proof, (Some ex_view), (fun _ => 2000).
-  eexists. eexists. eexists.
-  split; [vm_compute; reflexivity|]. split; [vm_compute; reflexivity|]. split; vm_compute; [reflexivity|discriminate].
-Qed.
+(* a fee above the pegged amount is refused (it used to wrap modulo 2^64 before fix 858a1b0) *)
+Example claim_fee_above_amount_refused :
+  claim ex_asset (repeat x06 32) [x00; x14] ex_proof (Some ex_view) (fun _ => 2000) = PgErr.
+Proof. vm_compute. reflexivity. Qed.
